@@ -45,6 +45,20 @@ CLAIMS = {
         "note": TRUSTED + "; Hypothesis' setup/teardown contract; the reference grammars in sa/rules/c11.py",
         "technique": "emission-language extraction over the CFG + NFA-in-DFA inclusion (product construction), def-use for ids",
     },
+    "C12": {
+        "text": "Dominance / who-may-call / plumbing analysis on all paths of the current source: every engine path to a "
+                "request passes a has_to_stop test first (cached_test_func, state-machine step, worker loop head), and "
+                "has_to_stop covers both the stop event and the failure limit; count_failure is called only from the "
+                "consumer side, for ERROR/FAILURE scenarios, trips at >= max_failures, later phases are skipped with the "
+                "limit reason; max-examples / step-count / unique-inputs / workers / rate-limit reach the call that gives "
+                "them meaning (settings merged and installed on every path); the unique-input caches are consulted before "
+                "the send, hits short-circuit, both outcomes are stored, keys agree and nobody but the owner API writes "
+                "them; every transport send site sits under ratelimit(). Not decided: counts, races on the failure counter "
+                "across threads, timing of the rate limiter.",
+        "design_ref": "DESIGN.md §4 C12",
+        "note": TRUSTED,
+        "technique": "CFG dominance (stop checks before sends), who-may-call/who-may-write tables, configuration plumbing",
+    },
     "C19": {
         "text": "Decides, on all paths of the current source, the structural clauses behind 'extensions apply exactly where "
                 "their own filters say': closure-cell ownership of the per-registration FilterSet in to_filterable_hook "
